@@ -65,6 +65,11 @@ def specBind (s : Sig) (args : List Val) (kws : Dict) : Option Binding :=
                 star := if s.star.isSome then some (args.drop npos) else none,
                 dstar := if s.dstar.isSome then some (kws.filter (fun kv => !s.names.contains kv.1)) else none }
 
+/-- the defaults a successful binding delivers: those of the parameters that receive neither a
+positional nor a keyword argument -/
+def specUsedDefaults (s : Sig) (args : List Val) (kws : Dict) : List Val :=
+  ((s.params.drop (min s.pos.length args.length)).filter (fun p => (kws.lookup p.name).isNone)).filterMap (·.dflt)
+
 /-- effective arguments of a call expression; `none` = TypeError -/
 def specCallArgs (c : CallExpr) : Option (List Val × Dict) :=
   match c.star, c.dstar with
@@ -86,13 +91,17 @@ def specCall (s : Sig) (c : CallExpr) : Option Binding :=
 
 /-- What a Go callable of signature `g`, reached by route `r`, must receive for the Python call with
 effective `(args, kws)`; `none` = TypeError.  Reached through the class, the first positional
-argument is the receiver (CPython's method descriptors). -/
-def specGoCall (g : GoSig) (r : Route) (args : List Val) (kws : Dict) : Option Delivered :=
+argument is the receiver and must be an instance of the class (CPython's method descriptors:
+"descriptor 'append' of 'list' object needs an argument" / "requires a 'list' object but received a
+'int'"). -/
+def specGoCall (g : GoSig) (r : Route) (isInst : Val → Bool) (args : List Val) (kws : Dict) : Option Delivered :=
   let recv : Option (Recv × List Val) :=
     match r with
     | .moduleFn => some (.module, args)
     | .viaInstance o => some (.obj o, args)
-    | .viaClass => match args with | [] => none | o :: rest => some (.obj o, rest)
+    | .viaClass => match args with
+      | [] => none
+      | o :: rest => if isInst o then some (.obj o, rest) else none
   match recv with
   | none => none
   | some (self, args) =>
@@ -101,11 +110,5 @@ def specGoCall (g : GoSig) (r : Route) (args : List Val) (kws : Dict) : Option D
     | .argsKw => some { self, args, kwargs := some kws }
     | .noArgs => if kws = [] ∧ args = [] then some { self, args := [], kwargs := none } else none
     | .oneArg => if kws = [] ∧ args.length = 1 then some { self, args, kwargs := none } else none
-
-/-! ## Known-finding predicates -/
-
-/-- C04-K01: a Go callable reached through the class (`T.m(o, …)`): gpython does not treat the first
-argument as the receiver -/
-def kfViaClass (r : Route) : Bool := r == .viaClass
 
 end GPy.C04
